@@ -49,7 +49,7 @@ class Module:
             self.tree = ast.parse(source, filename=relpath)
         except SyntaxError as exc:  # pragma: no cover
             raise AnalysisError(f'parse error in {relpath}: {exc}')
-        self.tree = fold_dynamic_names(unroll_literal_loops(self.tree))
+        self.tree = fold_dynamic_names(unroll_literal_loops(inline_string_constants(self.tree)))
         for node in ast.walk(self.tree):
             for child in ast.iter_child_nodes(node):
                 child._parent = node
@@ -90,6 +90,84 @@ def _constant_tables(tree):
             for k in [k for k in tables if k.endswith('.' + n.attr)]:
                 del tables[k]
     return tables
+
+
+def inline_string_constants(tree):
+    """Normalisation: a module-level name bound exactly once, at top level, to a string or number literal (`_TYPE_KEY = 'type'`,
+    `_SOURCE_COLUMN = 'Data'`, `_N_COLUMNS = 2`) is replaced by the literal wherever it is loaded inside a function or class of the module in
+    which no local of that name exists.  Behaviour-preserving; lets key tables and label rules see the strings."""
+    consts, counts = {}, {}
+    for st in tree.body:
+        tgs = []
+        if isinstance(st, ast.Assign):
+            tgs = [t for t in st.targets]
+        elif isinstance(st, (ast.AugAssign, ast.AnnAssign)):
+            tgs = [st.target]
+        for t in tgs:
+            for x in ast.walk(t):
+                if isinstance(x, ast.Name):
+                    counts[x.id] = counts.get(x.id, 0) + 1
+        if isinstance(st, ast.Assign) and len(st.targets) == 1 and isinstance(st.targets[0], ast.Name) and isinstance(st.value, ast.Constant) \
+                and isinstance(st.value.value, (str, int, float)) and not isinstance(st.value.value, bool):
+            consts[st.targets[0].id] = st.value.value
+    for n in ast.walk(tree):
+        if isinstance(n, ast.Global):
+            for nm in n.names:
+                counts[nm] = counts.get(nm, 0) + 2
+        if isinstance(n, (ast.FunctionDef, ast.AsyncFunctionDef, ast.ClassDef)) and n.name in consts:
+            counts[n.name] = counts.get(n.name, 0) + 2
+    consts = {k: v for k, v in consts.items() if counts.get(k) == 1 and k != '__all__' and not (k.startswith('__') and k.endswith('__'))}
+    if not consts:
+        return tree
+
+    def local_names(fn):
+        out = {a.arg for a in fn.args.posonlyargs + fn.args.args + fn.args.kwonlyargs}
+        if fn.args.vararg:
+            out.add(fn.args.vararg.arg)
+        if fn.args.kwarg:
+            out.add(fn.args.kwarg.arg)
+        for x in ast.walk(fn):
+            if isinstance(x, ast.Name) and isinstance(x.ctx, (ast.Store, ast.Del)):
+                out.add(x.id)
+        return out
+
+    class Inline(ast.NodeTransformer):
+        def __init__(self):
+            self.shadow = [set()]
+            self.depth = 0
+
+        def visit_FunctionDef(self, node):
+            self.shadow.append(self.shadow[-1] | local_names(node))
+            self.depth += 1
+            self.generic_visit(node)
+            self.depth -= 1
+            self.shadow.pop()
+            return node
+
+        visit_AsyncFunctionDef = visit_FunctionDef
+
+        def visit_Lambda(self, node):
+            self.shadow.append(self.shadow[-1] | {a.arg for a in node.args.args})
+            self.generic_visit(node)
+            self.shadow.pop()
+            return node
+
+        def visit_ClassDef(self, node):
+            own = {t.id for st in node.body if isinstance(st, ast.Assign) for t in st.targets if isinstance(t, ast.Name)}
+            self.shadow.append(self.shadow[-1] | own)
+            self.depth += 1
+            self.generic_visit(node)
+            self.depth -= 1
+            self.shadow.pop()
+            return node
+
+        def visit_Name(self, node):
+            if self.depth and isinstance(node.ctx, ast.Load) and node.id in consts and node.id not in self.shadow[-1]:
+                return ast.copy_location(ast.Constant(value=consts[node.id]), node)
+            return node
+    tree = Inline().visit(tree)
+    ast.fix_missing_locations(tree)
+    return tree
 
 
 def fold_dynamic_names(tree):
@@ -266,7 +344,41 @@ def unroll_literal_loops(tree):
                     return ast.copy_location(ast.List(elts=elts, ctx=ast.Load()), node)
             return node
 
+        def visit_GeneratorExp(self, node):
+            self.generic_visit(node)
+            # (f(k) for k in ('a', 'b')) consumed by tuple unpacking / tuple() / dict.update: the same elements, in order
+            par_ok = isinstance(getattr(node, '_unroll_ok', None), bool)
+            if par_ok and len(node.generators) == 1 and not node.generators[0].ifs and not node.generators[0].is_async \
+                    and isinstance(node.generators[0].target, ast.Name):
+                vals = literal_of(self.fn, node.generators[0].iter, self.cls)
+                if vals and all(isinstance(v, (str, int)) for v in vals):
+                    name = node.generators[0].target.id
+                    elts = [Subst(name, v).visit(copy.deepcopy(node.elt)) for v in vals]
+                    return ast.copy_location(ast.List(elts=elts, ctx=ast.Load()), node)
+            return node
+
+        def visit_Call(self, node):
+            # mark generator arguments whose consumer takes the elements in order exactly once
+            if ((isinstance(node.func, ast.Name) and node.func.id in ('tuple', 'list', 'dict')) or
+                    (isinstance(node.func, ast.Attribute) and node.func.attr in ('update', 'extend', 'column_stack'))) and len(node.args) == 1 \
+                    and isinstance(node.args[0], ast.GeneratorExp):
+                node.args[0]._unroll_ok = True
+            self.generic_visit(node)
+            # d.update([(k1, v1), (k2, v2)]) / dict([(k1, v1), ...])  ->  with a dict literal
+            if ((isinstance(node.func, ast.Attribute) and node.func.attr == 'update') or (isinstance(node.func, ast.Name) and node.func.id == 'dict')) \
+                    and len(node.args) == 1 and not node.keywords and isinstance(node.args[0], ast.List) and node.args[0].elts \
+                    and all(isinstance(e, ast.Tuple) and len(e.elts) == 2 for e in node.args[0].elts):
+                d = ast.copy_location(ast.Dict(keys=[e.elts[0] for e in node.args[0].elts], values=[e.elts[1] for e in node.args[0].elts]), node.args[0])
+                if isinstance(node.func, ast.Name):
+                    return d
+                node.args[0] = d
+            if isinstance(node.func, ast.Name) and node.func.id == 'tuple' and len(node.args) == 1 and isinstance(node.args[0], ast.List) and not node.keywords:
+                return ast.copy_location(ast.Tuple(elts=node.args[0].elts, ctx=ast.Load()), node)
+            return node
+
         def visit_Assign(self, node):
+            if isinstance(node.value, ast.GeneratorExp) and len(node.targets) == 1 and isinstance(node.targets[0], (ast.Tuple, ast.List)):
+                node.value._unroll_ok = True
             self.generic_visit(node)
             # a, b = [e1, e2]  ->  a = e1; b = e2   (when no element reads a target: not a swap)
             if len(node.targets) == 1 and isinstance(node.targets[0], (ast.Tuple, ast.List)) and isinstance(node.value, (ast.Tuple, ast.List)) \
